@@ -89,7 +89,7 @@ theorem storeInv_autoChangeNodeNumber (H : SlotMakersPreserve) (s : Store) (name
 theorem storeInv_stepFull (H : SlotMakersPreserve) (s : Store) (op : Op) (h : StoreInv s) :
     StoreInv (stepFull s op).1 := by
   cases op with
-  | addProxy a n0 n1 host => exact storeInv_addProxy s a n0 n1 host h
+  | addProxy a n0 n1 host i => exact storeInv_addProxy s a n0 n1 host i h
   | removeProxy a => exact storeInv_removeProxy s a h
   | addCluster n k c => exact H.addCluster s n k defaultConfig c h
   | removeCluster n => exact storeInv_removeCluster s n h
@@ -107,6 +107,7 @@ theorem storeInv_stepFull (H : SlotMakersPreserve) (s : Store) (op : Op) (h : St
   | bumpAll e => exact storeInv_forceBumpAllEpoch s e h
   | recover e => exact storeInv_recoverEpoch s e h
   | addFailure a r t => exact storeInv_addFailure s a r t h
+  | setOrdered => exact h.of_clusters_eq (by show s.setOrdered.clusters = _; unfold Store.setOrdered; split <;> rfl)
 
 theorem storeInv_step (H : SlotMakersPreserve) (s : Store) (op : Op) (h : StoreInv s) :
     StoreInv (step s op) := by
